@@ -351,6 +351,10 @@ class EngineVsStatement(Bounded):
                 prev = None
                 seen_t = {}
                 for b in ps:
+                    # no tag given: "a delay counts from the DELAY_END tag on (so by default) and a stop only from STOP_END"
+                    dflt = F(float(eng.time_at(Beat(b))))
+                    if abs(dflt - tl.time_at(b)) > tol:
+                        bad = f"time_at({b}) with no tag = {float(dflt)}, the statement gives {float(tl.time_at(b))} (delays on the beat counted, stops not)"
                     if b >= 0 and eng.bpm_at(Beat(b)) != tl.bpm_at(b):
                         bad = f"bpm_at({b}) = {eng.bpm_at(Beat(b))}, the last BPM change at or before it is {tl.bpm_at(b)}"
                     for tag in TL.TAGS:
